@@ -622,7 +622,7 @@ def plan_C04(ctx):
         % (st["distinct"], len(strings), len(targets), len(cases), nemb, len(nested_targets)))
     p1 = os.path.join(ctx.work, "mc_cases.ndjson")
     fam_codec.write_cases(cases, p1, 0)
-    n = 40000 if ctx.quick else 1500000
+    n = 40000 if ctx.quick else 600000
     p2 = fam_codec.gen_random(ctx.pvh, ctx.work, n, ctx.seed, cfg="mix", kind="hostile", idbase=100000000, tag="mut")
     ctx.case_files = [p1, p2]
     traces = [run_hostile(ctx, p1, "mc"), run_hostile(ctx, p2, "mut")]
